@@ -224,6 +224,41 @@ theorem tamper_detected (P : Prims) (k : DirKeys) (hm : MacLen P) (hx : StreamOK
       rw [this]; exact hpre
     · exact Or.inl ⟨hmac, hin⟩
 
+/-- **A modified MAC is always reported — every legal packet shape, header-only packets
+included.** After any honest packets `pre`, the honest ciphertext of ANY packet that fits
+(`d.length + p ≤ maxPayloadLength`; in particular the 21-byte header-only packet `d = []`, `p = 0`,
+whose MAC covers the header alone) arriving under a tag other than the honest one — in ANY
+segmentation, whatever follows — makes the reader deliver exactly the payload of `pre` and then
+fail with `ErrInvalidPacket`. (Unconditional: no forgery alternative, the tag of a fixed message
+is a function.) -/
+theorem modified_tag_reported (P : Prims) (k : DirKeys) (hm : MacLen P) (hx : StreamOK P k) (o : Nat)
+    (pre : List (Nat × Bytes × Nat)) (hok : ∀ x ∈ pre, PktOK x.1 x.2.1 x.2.2)
+    (f : Nat) (d : Bytes) (p : Nat) (hsz : d.length + p ≤ maxPayloadLength) (hfl : f < 256)
+    (tag : Bytes) (htag : tag.length = macLength)
+    (hbad : tag ≠ mac128 P k.macKey (pktCipher P k (offAfter o pre) f d p)) (rest : Bytes)
+    (cs : List Bytes)
+    (hcs : cs.flatten = encodeAll P k o pre ++ (tag ++ pktCipher P k (offAfter o pre) f d p ++ rest)) :
+    (feedChunks P k (Rx.init o) [] cs).2.1 = pre.map (fun x => dispatch x.1 x.2.1) ++ [.err] ∧
+    (feedChunks P k (Rx.init o) [] cs).1.failed = true ∧
+    delivered (feedChunks P k (Rx.init o) [] cs).2.1 = payloadBytes pre := by
+  obtain ⟨r1, q1⟩ := feedChunks_whole P k cs (Rx.init o) [] (Or.inr (idle_quiescent P k o []))
+  obtain ⟨mb', r2⟩ := roundtrip P k hm hx pre o []
+    (tag ++ pktCipher P k (offAfter o pre) f d p ++ rest) hok
+  obtain ⟨s', hf', r3⟩ := bad_tag_rejected P k hx tag htag hbad mb' hsz hfl rest
+  rw [List.nil_append, hcs] at r1
+  rw [← Rx.init_eq] at r2
+  obtain ⟨ho, hs, _⟩ := Machine.Runs.det (rxMachine P k) r1 q1
+    (Machine.Runs.trans (rxMachine P k) r2 r3) (failed_quiescent P k hf' rest)
+  refine ⟨ho, by rw [hs]; exact hf', ?_⟩
+  rw [ho, delivered_append, delivered_honest pre hok]
+  simp [delivered]
+
+/-- non-vacuity for the header-only shape: it fits, and flipping a bit of its tag gives another tag -/
+example : ([] : Bytes).length + 0 ≤ maxPayloadLength ∧ pktPayload < 256 ∧
+    (mac128 toyPrims [] (pktCipher toyPrims ⟨[], [], []⟩ 0 pktPayload [] 0)).set 0 0xff
+      ≠ mac128 toyPrims [] (pktCipher toyPrims ⟨[], [], []⟩ 0 pktPayload [] 0) := by
+  decide +kernel
+
 /-- a modification that leaves the 16 tag bytes alone (any change of the encrypted header or
     body, in particular any single flipped bit there) is either reported or exhibits an explicit
     **collision** of HMAC-SHA256-128: two different messages with the same tag -/
